@@ -32,7 +32,7 @@ def cfg(chars, max_len, size, export=False):
 
 # ---------------------------------------------------------------- rendering
 SETS = {'a': 'a', 'b': 'b', 'ab': '[ab]', 'dot': '.', 'sp': ' ', 'nl': '\\n', 'A': 'A'}
-QUANT = {'1': '', '?': '?', '*': '*', '+': '+'}
+QUANT = {'1': '', '?': '?', '*': '*', '+': '+', '??': '??', '*?': '*?', '+?': '+?'}
 
 
 def r_regex(re_):
@@ -129,6 +129,13 @@ def exec_text(task, cd):
     cd.write({'in.txt': text})
     for j, e in task.get('expected_files', {}).items():
         cd.write({'exp%s.txt' % j: e})
+    # `equals -contents-of FILE`: files written with ONE time stamp (a checkout, an archive): equal size and time
+    # stamp does not make two files equal
+    for j, e in task.get('eq_files', {}).items():
+        cd.write({'eq%s.txt' % j: e})
+    for n in os.listdir(cd.home):
+        if n.endswith('.txt'):
+            os.utime(os.path.join(cd.home, n), (1600000000, 1600000000))
     if kind == 'file':
         src = '-contents-of -rel-home in.txt'
         head = []
@@ -153,6 +160,9 @@ def exec_text(task, cd):
     if subject:
         for j, m in tms:
             asserts.append(('M%d' % j, '%s %s' % (subject, m if holds[str(j)] else '! ( %s )' % m)))
+        for j in task.get('eq_files', {}):
+            m = 'equals -contents-of -rel-home eq%s.txt' % j
+            asserts.append(('E%s' % j, '%s %s' % (subject, m if holds[str(j)] else '! ( %s )' % m)))
     bad = {}
     outs = {}
     dropped = set()
@@ -219,7 +229,8 @@ def run(ctx):
             holds = {str(j): bool(v) for j, v in enumerate(c['holds'])}
             text = txt(c['t'])
             outs = {str(j): txt(o) for j, o in enumerate(c['outs'])}
-            tasks.append(dict(kind='file', text=text, trs=trs, tms=tms, holds=holds))
+            tasks.append(dict(kind='file', text=text, trs=trs, tms=tms, holds=holds,
+                              eq_files={str(j): txt(m[1]) for j, m in enumerate(ops['matchers']) if m[0] == 'equals'}))
             meta.append(dict(outs=outs, ops=ops, c=c))
             # other kinds of source: a third of the operations each (rotating with the text)
             sel = len(tasks) % 3
@@ -254,6 +265,13 @@ def run(ctx):
                 ctx.fail('Transformer kind=%s %s text=%r' % (t['kind'], tr, text),
                          dict(kind='op', source=t['kind'], text=text, op=tr, expected=m['outs'][str(j)],
                               observed=o['outs'].get(str(j))))
+        for j in t.get('eq_files', {}):
+            n_ops += 1
+            if 'E%s' % j in o['bad']:
+                bad += 1
+                ctx.fail('Matcher kind=%s equals -contents-of FILE(%r) text=%r' % (t['kind'], t['eq_files'][j], text),
+                         dict(kind='op', source=t['kind'], text=text, op='equals -contents-of', expected=t['holds'][j],
+                              observed=o['bad']['E%s' % j]))
         for j, tm in t['tms']:
             n_ops += 1
             if 'M%d' % j in o['bad']:
